@@ -260,7 +260,197 @@ func (eng *Engine) runHarness(id string, cfg *PropConfig, v *violation, model st
 	case isPost && strings.Contains(out, "REPLAY-PANIC"):
 		return true, "CONFIRMED: the real code panics on the candidate input (while checking a postcondition)\n" + report
 	}
+	// The candidate model was of no use (it ignores the quantified axioms). Second attempt: search for a failing input on
+	// the real code - pseudo-random arguments (fixed seed), the function's preconditions checked in Go, the same
+	// run-time reading of the obligation. Only for functions whose preconditions translate to Go.
+	if found, rep := eng.searchHarness(fn, g, r, isPost, func() []string {
+		var ps []string
+		for _, p := range pars {
+			ps = append(ps, p.name+":"+p.kind)
+		}
+		return ps
+	}(), pkgDir); found {
+		return true, rep
+	} else if rep != "" {
+		report += "\n" + rep
+	}
 	return false, "not reproduced (candidate models ignore quantified axioms, so this does not clear the obligation)\n" + report
+}
+
+// searchHarness: see the end of runHarness.
+func (eng *Engine) searchHarness(fn *ssa.Function, g *Gen, r *OblResult, isPost bool, pars []string, pkgDir string) (bool, string) {
+	ct := eng.contractFor(fn)
+	var pre []string
+	if ct != nil {
+		for _, cl := range ct.Requires {
+			e, ok := eng.postToGo("ensures "+cl.Text, fn, g)
+			if !ok {
+				return false, "search on the real code: not attempted (a precondition does not translate to Go)"
+			}
+			pre = append(pre, "("+e+")")
+		}
+	}
+	goExpr := "true"
+	if isPost {
+		var ok bool
+		goExpr, ok = eng.postToGo(r.Obl.text, fn, g)
+		if !ok {
+			return false, ""
+		}
+	}
+	var decl, callArgs, show []string
+	recvExpr := ""
+	for i, pk := range pars {
+		name, kind := pk[:strings.LastIndex(pk, ":")], pk[strings.LastIndex(pk, ":")+1:]
+		p := fn.Params[i]
+		switch kind {
+		case "recv":
+			et := p.Type().Underlying().(*types.Pointer).Elem()
+			decl = append(decl, fmt.Sprintf("\t\tvar recv0 %s", types.TypeString(et, func(pkg *types.Package) string {
+				if pkg == fn.Pkg.Pkg {
+					return ""
+				}
+				return pkg.Name()
+			})))
+			recvExpr = "(&recv0)"
+		case "bytes":
+			decl = append(decl, fmt.Sprintf("\t\targ_%s := genBytes()", name))
+			callArgs = append(callArgs, "arg_"+name)
+			show = append(show, "arg_"+name)
+		case "string":
+			decl = append(decl, fmt.Sprintf("\t\targ_%s := string(genBytes())", name))
+			callArgs = append(callArgs, "arg_"+name)
+			show = append(show, "arg_"+name)
+		case "int":
+			decl = append(decl, fmt.Sprintf("\t\tvar arg_%s %s = %s(genInt())", name, goTypeName(p.Type(), fn), goTypeName(p.Type(), fn)))
+			callArgs = append(callArgs, "arg_"+name)
+			show = append(show, "arg_"+name)
+		case "bool":
+			decl = append(decl, fmt.Sprintf("\t\targ_%s := next()%%2 == 0", name))
+			callArgs = append(callArgs, "arg_"+name)
+			show = append(show, "arg_"+name)
+		}
+	}
+	call := fn.Name() + "(" + strings.Join(callArgs, ", ") + ")"
+	if recvExpr != "" {
+		call = recvExpr + "." + call
+	}
+	nres := fn.Signature.Results().Len()
+	var lhs []string
+	for i := 0; i < nres; i++ {
+		lhs = append(lhs, fmt.Sprintf("res%d", i))
+	}
+	assign, uses := "", ""
+	if nres > 0 {
+		assign = strings.Join(lhs, ", ") + " := "
+		for _, l := range lhs {
+			uses += "\t\t\t_ = " + l + "\n"
+		}
+	}
+	preCheck := ""
+	if len(pre) > 0 {
+		preCheck = "\t\tif !(" + strings.Join(pre, " && ") + ") {\n\t\t\tcontinue\n\t\t}\n"
+	}
+	fmtArgs, fmtVerbs := "", ""
+	for _, sh := range show {
+		fmtVerbs += " " + sh[4:] + "=%#v"
+		fmtArgs += ", " + sh
+	}
+	src := fmt.Sprintf(`//go:build verif
+
+package %s
+
+import (
+	"testing"
+	"time"
+)
+
+func TestVerifSearch(t *testing.T) {
+	rng := uint64(88172645463325252)
+	next := func() uint64 { rng ^= rng << 13; rng ^= rng >> 7; rng ^= rng << 17; return rng }
+	genBytes := func() []byte {
+		if next()%%24 == 0 {
+			return nil
+		}
+		n := int(next() %% 72)
+		b := make([]byte, n)
+		for i := range b {
+			switch next() %% 4 {
+			case 0:
+				b[i] = byte(next())
+			case 1:
+				b[i] = 0
+			case 2:
+				b[i] = 0xff
+			default:
+				b[i] = byte(next() %% 40)
+			}
+		}
+		return b
+	}
+	genInt := func() int64 {
+		switch next() %% 4 {
+		case 0:
+			return int64(next() %% 300)
+		case 1:
+			return -int64(next() %% 300)
+		case 2:
+			return int64(next() %% 70000)
+		}
+		return int64(next())
+	}
+	_, _ = genBytes, genInt
+	deadline := time.Now().Add(8 * time.Second)
+	for trial := 0; trial < 400000 && time.Now().Before(deadline); trial++ {
+%s
+%s		ok, pan := func() (ok bool, pan interface{}) {
+			defer func() {
+				if r := recover(); r != nil {
+					pan = r
+				}
+			}()
+			%s%s
+%s			return %s, nil
+		}()
+		if pan != nil {
+			t.Fatalf("REPLAY-SEARCH-PANIC trial %%d:%s: %%v", trial%s, pan)
+		}
+		if !ok {
+			t.Fatalf("REPLAY-SEARCH-POST-FALSE trial %%d:%s", trial%s)
+		}
+	}
+	t.Log("REPLAY-SEARCH-NOTHING")
+}
+`, fn.Pkg.Pkg.Name(), strings.Join(decl, "\n"), preCheck, assign, call, uses, goExpr, fmtVerbs, fmtArgs, fmtVerbs, fmtArgs)
+	tmp, err := os.MkdirTemp("", "verif-search-")
+	if err != nil {
+		return false, ""
+	}
+	defer os.RemoveAll(tmp)
+	testFile := filepath.Join(tmp, "zz_verif_search_test.go")
+	os.WriteFile(testFile, []byte(src), 0o644)
+	ov := map[string]map[string]string{"Replace": {filepath.Join(pkgDir, "zz_verif_search_test.go"): testFile}}
+	ob, _ := json.Marshal(ov)
+	ovFile := filepath.Join(tmp, "ov.json")
+	os.WriteFile(ovFile, ob, 0o644)
+	rel, _ := filepath.Rel(eng.repoDir, pkgDir)
+	cmd := exec.Command("go", "test", "-tags", "verif", "-overlay", ovFile, "-vet=off", "-count=1", "-timeout", "60s", "-run", "^TestVerifSearch$", "./"+rel+"/")
+	cmd.Dir = eng.repoDir
+	cmd.Env = append(os.Environ(), "GOFLAGS=-mod=mod", "GOPROXY=off", "GOSUMDB=off", "GOTOOLCHAIN=local")
+	outB, _ := cmd.CombinedOutput()
+	out := string(outB)
+	short := out
+	if len(short) > 1500 {
+		short = short[:1500] + "\n..."
+	}
+	rep := "search for a failing input on the real code (pseudo-random arguments, fixed seed, preconditions checked, 8 s):\n" + src + "\noutput:\n" + short
+	switch {
+	case isPost && strings.Contains(out, "REPLAY-SEARCH-POST-FALSE"):
+		return true, "CONFIRMED by search: the postcondition is false on the real code for the input shown in the output\n" + rep
+	case strings.Contains(out, "REPLAY-SEARCH-PANIC"):
+		return true, "CONFIRMED by search: the real code panics on the input shown in the output\n" + rep
+	}
+	return false, rep
 }
 
 func atoiSMT(s string) int {
